@@ -14,7 +14,9 @@ import (
 	"fmt"
 	"math/rand"
 	"os"
+	"os/exec"
 	"regexp"
+	"runtime/debug"
 	"sort"
 	"strconv"
 	"strings"
@@ -24,7 +26,25 @@ import (
 	"github.com/inspirer/textmapper/status"
 )
 
-func init() { props["C15"] = c15 }
+func init() {
+	props["C15"] = c15
+	// child-process probe: the witness of [C15-inline-recursive-crash] kills the process (stack overflow)
+	props["C15-crashprobe"] = func(c *Ctx) {
+		debug.SetMaxStack(16 << 20)
+		c15Compile("p", c15Head+"%generate r = set(r | 'a');\nS : set(r) 'b' ;\n")
+	}
+}
+
+// c15CrashProbe reports whether the compiler dies on an inline set that reaches a recursive named set.
+func c15CrashProbe() bool {
+	dir, err := os.MkdirTemp("", "c15probe")
+	if err != nil {
+		return true
+	}
+	defer os.RemoveAll(dir)
+	cmd := exec.Command(os.Args[0], "C15-crashprobe", "-out", dir)
+	return cmd.Run() != nil
+}
 
 // ---- set expressions ----
 
@@ -195,9 +215,23 @@ func (g *c15Gram) tm() string {
 	return sb.String()
 }
 
+func c15AltText(g *c15Gram, alt []c15Sym) string {
+	var parts []string
+	for _, s := range alt {
+		if s.inline != nil {
+			parts = append(parts, "set("+s.inline.text(g.names)+")")
+		} else {
+			parts = append(parts, s.name)
+		}
+	}
+	return strings.Join(parts, " ")
+}
+
 type c15Cfg struct {
 	noInvLeft    bool // avoid `&` whose left operand may evaluate to a co-finite set ([C25-closure-buf-alias])
 	noFwdAlias   bool // avoid `set(name)` with a named set declared later or itself ([C15-forward-alias])
+	noInlineRec  bool // inline set(...) must not reach a recursive named set ([C15-inline-recursive-crash])
+	noShared     bool // no grammar with both an extracted nonterminal (inline set) and a reference to a named set ([C15-rearrange-shared])
 }
 
 type c15Gen struct {
@@ -207,6 +241,9 @@ type c15Gen struct {
 	// symbols usable in leaves
 	leafSyms []string
 	anyCompl bool // some expression generated so far contains `~`
+	banRef   map[int]bool // named sets that must not be referenced (inline sets: [C15-inline-recursive-crash])
+	noRefs   bool         // no references to named sets at all
+	noInline bool         // no inline sets
 }
 
 func (x *c15Gen) leaf() *c15Expr {
@@ -222,8 +259,10 @@ func (x *c15Gen) leaf() *c15Expr {
 func (x *c15Gen) expr(depth int, self int) *c15Expr {
 	r := x.r
 	if depth <= 0 || r.Intn(10) < 3 {
-		if len(x.g.names) > 0 && r.Intn(4) == 0 {
-			return &c15Expr{kind: "ref", ref: r.Intn(len(x.g.names))}
+		if len(x.g.names) > 0 && !x.noRefs && r.Intn(4) == 0 {
+			if j := r.Intn(len(x.g.names)); !x.banRef[j] {
+				return &c15Expr{kind: "ref", ref: j}
+			}
 		}
 		return x.leaf()
 	}
@@ -313,6 +352,13 @@ func c15HasCompl(g *c15Gram) bool {
 func c15GenGram(r *rand.Rand, name string, cfg c15Cfg) *c15Gram {
 	g := &c15Gram{name: name, alts: map[string][][]c15Sym{}}
 	x := &c15Gen{r: r, g: g, cfg: cfg}
+	if cfg.noShared {
+		if r.Intn(2) == 0 {
+			x.noRefs = true
+		} else {
+			x.noInline = true
+		}
+	}
 	nt := 2 + r.Intn(5)
 	for i := 0; i < nt; i++ {
 		g.terms = append(g.terms, fmt.Sprintf("'%c'", 'a'+i))
@@ -342,6 +388,55 @@ func c15GenGram(r *rand.Rand, name string, cfg c15Cfg) *c15Gram {
 	if r.Intn(4) == 0 {
 		x.leafSyms = append(x.leafSyms, "eoi")
 	}
+	// sets
+	for i := range g.named {
+		g.named[i] = x.expr(1+r.Intn(3), i)
+	}
+	for i := range g.setNts {
+		g.setNtExpr = append(g.setNtExpr, x.expr(1+r.Intn(2), -1))
+		_ = i
+	}
+	na := r.Intn(3)
+	for i := 0; i < na; i++ {
+		g.asserts = append(g.asserts, x.expr(1+r.Intn(2), -1))
+		g.assertKind = append(g.assertKind, r.Intn(2) == 0)
+	}
+	// named sets that reach a reference cycle must not be used by inline sets while
+	// syntax.appendSetName recurses without a visited set ([C15-inline-recursive-crash])
+	if cfg.noInlineRec {
+		refs := make([][]int, ng)
+		for i, e := range g.named {
+			e.walk(func(n *c15Expr) {
+				if n.kind == "ref" {
+					refs[i] = append(refs[i], n.ref)
+				}
+			})
+		}
+		reach := make([][]bool, ng)
+		for i := range reach {
+			reach[i] = make([]bool, ng)
+			for _, j := range refs[i] {
+				reach[i][j] = true
+			}
+		}
+		for k := 0; k < ng; k++ {
+			for i := 0; i < ng; i++ {
+				for j := 0; j < ng; j++ {
+					if reach[i][k] && reach[k][j] {
+						reach[i][j] = true
+					}
+				}
+			}
+		}
+		x.banRef = map[int]bool{}
+		for i := 0; i < ng; i++ {
+			for j := 0; j < ng; j++ {
+				if (i == j || reach[i][j]) && reach[j][j] {
+					x.banRef[i] = true
+				}
+			}
+		}
+	}
 	// rules
 	nullBias := []int{5, 15, 35}[r.Intn(3)]
 	reach := nn
@@ -369,7 +464,7 @@ func c15GenGram(r *rand.Rand, name string, cfg c15Cfg) *c15Gram {
 					alt = append(alt, c15Sym{name: g.nts[r.Intn(lim)]})
 				case p < 90 && ns > 0:
 					alt = append(alt, c15Sym{name: g.setNts[r.Intn(ns)]})
-				case p < 95:
+				case p < 95 && !x.noInline:
 					alt = append(alt, c15Sym{inline: x.expr(2, -1)})
 				case p < 98 && g.recovering:
 					alt = append(alt, c15Sym{name: "error"})
@@ -377,7 +472,16 @@ func c15GenGram(r *rand.Rand, name string, cfg c15Cfg) *c15Gram {
 					alt = append(alt, c15Sym{name: g.terms[r.Intn(nt)]})
 				}
 			}
-			g.alts[n] = append(g.alts[n], alt)
+			// identical alternatives are merged by the compiler: keep the written rules distinct
+			dup := false
+			for _, o := range g.alts[n] {
+				if c15AltText(g, o) == c15AltText(g, alt) {
+					dup = true
+				}
+			}
+			if !dup {
+				g.alts[n] = append(g.alts[n], alt)
+			}
 		}
 	}
 	// inputs: nonterminals among the reachable block; eoi flags
@@ -396,19 +500,6 @@ func c15GenGram(r *rand.Rand, name string, cfg c15Cfg) *c15Gram {
 		if !has {
 			g.inputEoi[r.Intn(len(g.inputEoi))] = true
 		}
-	}
-	// sets
-	for i := range g.named {
-		g.named[i] = x.expr(1+r.Intn(3), i)
-	}
-	for i := range g.setNts {
-		g.setNtExpr = append(g.setNtExpr, x.expr(1+r.Intn(2), -1))
-		_ = i
-	}
-	na := r.Intn(3)
-	for i := 0; i < na; i++ {
-		g.asserts = append(g.asserts, x.expr(1+r.Intn(2), -1))
-		g.assertKind = append(g.assertKind, r.Intn(2) == 0)
 	}
 	// avoided classes
 	all := func(f func(e *c15Expr)) {
@@ -789,6 +880,28 @@ func c15(c *Ctx) {
 				"(nullable.go treats a set nonterminal as non-nullable whatever it resolves to)", "[C15-empty-set-nullable] %generate f = set(first S); S : E 'b' ; E : set('a' & 'c') ;")
 		}
 	}
+	if got, _ := c15ProbeSet("%generate h = set(first N1);\n%generate k = set(h | 'a');\nS : 'b' set('d') N1 ;\nN1 : 'c' ;\n", "h"); fmt.Sprint(got) != "[4]" {
+		cfg.noShared = !findings
+		c.Notes = append(c.Notes, fmt.Sprintf("probe [C15-rearrange-shared] FAILED: `%%generate h = set(first N1); %%generate k = set(h | 'a'); S : 'b' set('d') N1; N1 : 'c';` gives h = %v, expected [4]", got))
+		c.Rule += " AVOIDED CLASS (probe failed, [C15-rearrange-shared]): grammars that have both an inline set(...) (the only construct of this generator that makes Expand insert a nonterminal and renumber) " +
+			"and a reference to a named set from another set expression; every grammar gets one of the two, chosen at random."
+		if findings {
+			c.Violate(fmt.Sprintf("[C15-rearrange-shared] Model.Rearrange renumbers the symbols of a named set once per top-level set that reaches it (TokenSet.ForEach has a fresh `seen` per call): "+
+				"`%%generate h = set(first N1); %%generate k = set(h | 'a'); S : 'b' set('d') N1; N1 : 'c';` resolves h to %v, the definition gives [4] ('c')", got),
+				"[C15-rearrange-shared] %generate h = set(first N1); %generate k = set(h | 'a'); S : 'b' set('d') N1 ; N1 : 'c' ;")
+		}
+	}
+	c.Extra["avoid_shared_rearrange"] = cfg.noShared
+	if c15CrashProbe() {
+		cfg.noInlineRec = true // never generated in-process: the crash cannot be recovered from
+		c.Notes = append(c.Notes, "probe [C15-inline-recursive-crash] FAILED (child process died): `%generate r = set(r | 'a'); S : set(r) 'b';` — syntax.appendSetName recurses through named sets without a visited set")
+		c.Rule += " AVOIDED CLASS (child-process probe died, [C15-inline-recursive-crash]): an inline set(...) inside a rule that reaches a named set lying on a reference cycle."
+		if findings {
+			c.Violate("[C15-inline-recursive-crash] compiler.Compile dies with a stack overflow (fatal, not recoverable): syntax.appendSetName follows named-set references without a visited set when it names the nonterminal of an inline set",
+				"[C15-inline-recursive-crash] %generate r = set(r | 'a'); S : set(r) 'b' ;")
+		}
+	}
+	c.Extra["avoid_inline_recursive"] = cfg.noInlineRec
 	c.Extra["avoid_inv_left"] = cfg.noInvLeft
 	c.Extra["avoid_forward_alias"] = cfg.noFwdAlias
 
